@@ -144,6 +144,10 @@ class Collector:
                 self.add("NOTNONE", t[2][0], facts, node, "argument of int()")
             if fn[0] == "meth" and t[2]:
                 self.add("NOTNONE", t[2][0], facts, node, f"receiver of .{fn[1]}()")
+            if fn[0] == "meth" and fn[1] in ("format", "format_map") and t[2]:
+                self.add("STRFORMAT", t, facts, node)
+            if fn[0] == "binop" or (fn[0] == "meth" and fn[1] == "__mod__"):
+                pass
             if fn[0] not in ("builtin", "ext", "func", "closure", "boundcls", "class", "clsparam", "meth", "supermeth", "newtype"):
                 self.walk(fn, facts, node)
             return
@@ -360,6 +364,38 @@ class Discharger:
             return self.discharge_sub(ob, facts)
         if ob.kind == "FORMAT":
             return self.discharge_format(ob)
+        if ob.kind == "STRFORMAT":
+            # str.format: the template must be a constant whose replacement fields are all supplied (a template built
+            # from input text re-reads braces in the data as fields: KeyError / IndexError / ValueError)
+            import string
+            t = ob.term
+            try:
+                tmpl = ctx.fold.fold(t[2][0])
+            except NotConstant:
+                return None
+            if not isinstance(tmpl, str):
+                return None
+            npos, names = len(t[2]) - 1, {k for k, _ in t[3]}
+            auto = 0
+            try:
+                for lit, field, spec, conv in string.Formatter().parse(tmpl):
+                    if field is None:
+                        continue
+                    head = field.split(".")[0].split("[")[0]
+                    if head == "":
+                        auto += 1
+                        if auto > npos:
+                            return None
+                    elif head.isdigit():
+                        if int(head) >= npos:
+                            return None
+                    elif head not in names:
+                        return None
+                    if spec and ("{" in spec):
+                        return None
+            except ValueError:
+                return None
+            return "D16 str.format on a constant template whose fields are all supplied"
         return None
 
     def static_type(self, x: Term, ob: Obligation):
